@@ -626,3 +626,64 @@ Proof.
   cbv zeta. split; [reflexivity|]. split; [vm_compute; reflexivity|].
   eexists. split; [vm_compute; reflexivity|]. split; vm_compute; reflexivity.
 Qed.
+
+(* ---- client property names through flatten levels (/repo 96a1ec3) ----
+   Since the fix the reader (SchemaSetFromFiles, SchemaCache.Schema) checks, after all schemas are built,
+   that the client properties of every object - its own plus those hoisted from flattened object fields at
+   any depth - have pairwise different JSON names (model/RulesClientNames.v: client_names, tree_names_ok;
+   read_tree_checked / read_object_checked are the reader with that last step).  A package with such a
+   clash is not a valid declaration (its JSON object would carry one key twice); the round trip is stated
+   for the others, and the checked reader is exactly the former one plus the check. *)
+From J5V.model Require Import RulesClientNames.
+From J5V.proofs Require Import RulesClientNamesProofs.
+
+Theorem C04_nested_checked : forall fixed env s path name m,
+  zero_std env = true -> tree_rt s = true ->
+  write_schema env path name s = Ok m ->
+  tree_names_ok fixed path m = true ->
+  read_tree_checked fixed env path m = Ok (norm_schema env path name s).
+Proof. exact c04_tree_checked. Qed.
+Print Assumptions C04_nested_checked.
+
+Theorem C04_checked_reader_exact : forall fixed env path m t,
+  read_tree_checked fixed env path m = Ok t <->
+  read_tree env path m = Ok t /\ tree_names_ok fixed path m = true.
+Proof. exact read_tree_checked_exact. Qed.
+Print Assumptions C04_checked_reader_exact.
+
+Theorem C04_checked_object_reader_exact : forall fixed env k name fs ps,
+  read_object_checked fixed env k name fs = Ok ps <->
+  read_object env fs = Ok ps /\ tree_names_ok fixed [] (flat_msg k name fs) = true.
+Proof. exact read_object_checked_exact. Qed.
+Print Assumptions C04_checked_object_reader_exact.
+
+Theorem C04_client_name_clash_refused : forall fixed env s path name m,
+  write_schema env path name s = Ok m ->
+  tree_names_ok fixed path m = false ->
+  forall t, read_tree_checked fixed env path m <> Ok t.
+Proof. exact c04_tree_clash_refused. Qed.
+Print Assumptions C04_client_name_clash_refused.
+
+(* non-vacuity, both ways: Foo { a : string; in (flatten) : inline object { b : string } } passes the check
+   and reads back; with the inner property named a as well the package compiles and the reader refuses it;
+   so does a clash two levels deep (Foo { a; in (flatten) { mid (flatten) { a } } }) and one between two
+   flattened fields of the fixed object Bar { x } *)
+Example C04_client_names_example :
+  let str_f n := P n false false (PSingle (TStr None None None)) [] in
+  let flat n inner := NF (P n false false (PSingle (TObject [] true None)) []) (Some (NS RObject None [] inner)) in
+  let env := EE [] None [] in
+  let good := NS RObject None [] [NF (str_f [97]) None; flat [105;110] [NF (str_f [98]) None]] in
+  let bad := NS RObject None [] [NF (str_f [97]) None; flat [105;110] [NF (str_f [97]) None]] in
+  let deep := NS RObject None [] [NF (str_f [97]) None; flat [105;110] [flat [109;105;100] [NF (str_f [97]) None]]] in
+  let two := NS RObject None [] [NF (P [112] false false (PSingle (TObject [66;97;114] true None)) []) None;
+                                 NF (P [113] false false (PSingle (TObject [66;97;114] true None)) []) None] in
+  let fixed := [([66;97;114], [[120]])] in
+  (exists m, write_schema env [] [70;111;111] good = Ok m /\ tree_names_ok fixed [] m = true /\
+             read_tree_checked fixed env [] m = Ok (norm_schema env [] [70;111;111] good)) /\
+  (exists m, write_schema env [] [70;111;111] bad = Ok m /\ tree_names_ok fixed [] m = false /\
+             read_tree_checked fixed env [] m = Err e_client_name) /\
+  (exists m, write_schema env [] [70;111;111] deep = Ok m /\ tree_names_ok fixed [] m = false) /\
+  (exists m, write_schema env [] [70;111;111] two = Ok m /\ tree_names_ok fixed [] m = false).
+Proof.
+  cbv zeta. repeat split; eexists; (split; [vm_compute; reflexivity|]); repeat split; vm_compute; reflexivity.
+Qed.
